@@ -28,6 +28,7 @@ import (
 	"testing"
 	"time"
 
+	"github.com/lestrrat-go/jwx/v2/jwa"
 	"github.com/lestrrat-go/jwx/v2/jws"
 	"github.com/nuts-foundation/nuts-node/audit"
 	nutsCrypto "github.com/nuts-foundation/nuts-node/crypto"
@@ -39,6 +40,7 @@ type vLdOp struct {
 	Op    string                 `json:"op"`
 	C     string                 `json:"c"`
 	Name  string                 `json:"name"`
+	SAlg  string                 `json:"signedalg,omitempty"`
 	Class string                 `json:"class"`
 	HAlg  string                 `json:"halg"`
 	By    string                 `json:"by"`
@@ -73,6 +75,7 @@ func TestVerifC17LdProof(t *testing.T) {
 	if os.Getenv("VERIF_TIER") == "thorough" {
 		rounds = 4
 	}
+	rsaKey, _ := rsa.GenerateKey(crand.Reader, 2048)
 	for round := 0; round < rounds; round++ {
 		cryptoInstance := nutsCrypto.NewMemoryCryptoInstance(t)
 		kid := "did:nuts:issuer" + strconv.Itoa(round) + "#key-1"
@@ -178,6 +181,50 @@ func TestVerifC17LdProof(t *testing.T) {
 			{"proof-purpose-altered", "tampered", "nobody", func() LDProof { p := valid; p.ProofPurpose = "authentication"; return p }(), docNoProof, key},
 			{"proof-nonce-added", "tampered", "nobody", func() LDProof { p := valid; s := "n"; p.Nonce = &s; return p }(), docNoProof, key},
 		}
+		// wave 9: an issuer whose DID document lists an RSA key. Hand-built detached JWS proofs over the SAME document and proof options:
+		// header alg X, signature REALLY made with X by the RSA key holder. PS256 (what the key determines) is the control; RS256/384/512
+		// (RSASSA-PKCS1-v1_5, on no allow-list) and PS384/PS512 (not what the key determines) must be refused.
+		signedAlg := map[string]string{}
+		if rsaKey != nil {
+			canonDoc, e1 := suite.CanonicalizeDocument(docNoProof)
+			prep, e2 := valid.asCanonicalizableMap()
+			if e1 == nil && e2 == nil {
+				if canonProof, e3 := suite.CanonicalizeDocument(prep); e3 == nil {
+					tbv := append(suite.CalculateDigest(canonProof), suite.CalculateDigest(canonDoc)...)
+					for _, a := range []jwa.SignatureAlgorithm{jwa.PS256, jwa.RS256, jwa.RS384, jwa.RS512, jwa.PS384, jwa.PS512} {
+						signer, err := jws.NewSigner(a)
+						if err != nil {
+							t.Fatal(err)
+						}
+						hdr := hdrOf(map[string]interface{}{"alg": a.String(), "b64": false, "crit": []string{"b64"}})
+						sig, err := signer.Sign([]byte(fmt.Sprintf("%s.%s", hdr, tbv)), rsaKey)
+						if err != nil {
+							t.Fatal(err)
+						}
+						class := "alg-not-allowed"
+						if a == jwa.PS256 {
+							class = "valid"
+						}
+						nm := "rsa-issuer-signed-" + strings.ToLower(a.String())
+						signedAlg[nm] = a.String()
+						vs = append(vs, variant{nm, class, "signer", with(hdr + ".." + enc.EncodeToString(sig)), docNoProof, &rsaKey.PublicKey})
+					}
+					// the same with a header that states no algorithm at all, signed PS256 / RS256
+					for _, a := range []jwa.SignatureAlgorithm{jwa.PS256, jwa.RS256} {
+						signer, _ := jws.NewSigner(a)
+						hdr := hdrOf(map[string]interface{}{"b64": false, "crit": []string{"b64"}})
+						sig, _ := signer.Sign([]byte(fmt.Sprintf("%s.%s", hdr, tbv)), rsaKey)
+						class := "alg-not-allowed"
+						if a == jwa.PS256 {
+							class = "valid"
+						}
+						nm := "rsa-issuer-no-hdr-alg-signed-" + strings.ToLower(a.String())
+						signedAlg[nm] = a.String()
+						vs = append(vs, variant{nm, class, "signer", with(hdr + ".." + enc.EncodeToString(sig)), docNoProof, &rsaKey.PublicKey})
+					}
+				}
+			}
+		}
 		for _, v := range vs {
 			name := "r" + strconv.Itoa(round) + "-" + v.name
 			if len(only) > 0 && !only["ldproof|"+name] {
@@ -246,7 +293,7 @@ func TestVerifC17LdProof(t *testing.T) {
 					res = "accept"
 				}
 			}()
-			b, _ := json.Marshal(vLdOp{Op: "consume", C: "ldproof", Name: name, Class: v.class, HAlg: halg, By: v.by, V: verd})
+			b, _ := json.Marshal(vLdOp{Op: "consume", C: "ldproof", Name: name, SAlg: signedAlg[v.name], Class: v.class, HAlg: halg, By: v.by, V: verd})
 			ops.Write(b)
 			ops.WriteByte('\n')
 			impl.WriteString(res + "\n")
